@@ -1,7 +1,7 @@
 (* C06 - finite-domain facts used by the date/time proofs, each established by evaluating a
    boolean check on EVERY element of the stated range ([all_range]/[all_below], vm_compute) and
    lifted with XsdBaseProofs.all_range_spec:
-     all 10^6 microsecond values 0..999999, all 1681 zone offsets -840..840 minutes,
+     all 1681 zone offsets -840..840 minutes,
      all years 0..9999, all two-digit fields 0..99, all (sign, hh, mm) zone literals. *)
 From Coq Require Import List ZArith Bool Ascii String Lia.
 From Basyx Require Import model.XsdBase model.XsdRe model.XsdLex model.Xsd proofs.XsdBaseProofs proofs.XsdIntProofs.
@@ -62,17 +62,13 @@ Proof.
   - unfold year_re. change (d4 n) with ([] ++ d4 n). apply m_cat; [reflexivity|assumption].
 Qed.
 
-(* ---- microseconds 0..999999: '%06d' then int(frac[1:7].ljust(6, "0")) *)
-Definition chk6 (n : Z) : bool :=
-  str_eqb (fmt_0d 6 n) (d6 n) && forallb is_digit (d6 n) && (us_of_frac (d6 n) =? n).
-Lemma chk6_all : all_below 20 1000000 chk6 = true.
-Proof. vm_compute. reflexivity. Qed.
+(* ---- microseconds 0..999999: '%06d' then int(frac[1:7].ljust(6, "0")) - by proof for every value *)
 Lemma six_digits n : 0 <= n <= 999999 ->
-  fmt_0d 6 n = d6 n /\ forallb is_digit (d6 n) = true /\ us_of_frac (d6 n) = n.
+  List.length (fmt_0d 6 n) = 6%nat /\ forallb is_digit (fmt_0d 6 n) = true /\ us_of_frac (fmt_0d 6 n) = n.
 Proof.
-  intros H. pose proof (all_below_spec 20 1000000 chk6 chk6_all ltac:(cbn; lia) n ltac:(lia)) as K.
-  unfold chk6 in K. repeat (apply andb_true_iff in K as [K ?]).
-  repeat split; [apply str_eqb_eq, K|assumption|apply Z.eqb_eq; assumption].
+  intros H. destruct (fmt_0d_spec 6 n) as (Hl & Hd & Hv); [change (10 ^ Z.of_nat 6) with 1000000; lia|lia|].
+  repeat split; auto. unfold us_of_frac. rewrite firstn_all2 by lia. rewrite Hl. cbn [Nat.sub repeat].
+  rewrite app_nil_r. exact Hv.
 Qed.
 
 (* ---- digit characters are canonical *)
@@ -166,25 +162,26 @@ Lemma tz_group_shape r g t : tz_group_end r = Some g -> parse_tzinfo g = Ok t ->
                   matches (opt tz_re) core = true.
 Proof.
   unfold tz_group_end. destruct (at_end r) eqn:E0.
-  - intros _ _. exists [], r. repeat split; auto using at_end_ws.
+  - intros _ _. exists [], r. split; [reflexivity|]. split; [apply at_end_ws, E0|]. split; reflexivity.
   - destruct r as [|c r0]; [discriminate|].
     destruct (ceq c "Z" && at_end r0) eqn:EZ.
     + apply andb_true_iff in EZ as [EZ1 EZ2]. apply ceq_eq in EZ1. subst c.
-      intros _ _. exists ["Z"%char], r0. repeat split; auto using at_end_ws.
+      intros _ _. exists ["Z"%char], r0. split; [reflexivity|]. split; [apply at_end_ws, EZ2|]. split; reflexivity.
     + destruct r0 as [|h1 [|h2 [|col [|m1 [|m2 r']]]]]; try discriminate.
       destruct (is_sign c && is_digit h1 && is_digit h2 && ceq col ":" && is_digit m1 && is_digit m2 && at_end r') eqn:C;
         [|discriminate].
-      repeat (apply andb_true_iff in C as [C ?]).
+      apply andb_true_iff in C as [C Hend]. apply andb_true_iff in C as [C Hm2]. apply andb_true_iff in C as [C Hm1].
+      apply andb_true_iff in C as [C Hcol]. apply andb_true_iff in C as [C Hh2]. apply andb_true_iff in C as [C Hh1].
       intros [= <-]. cbn [parse_tzinfo].
       destruct (digits2_canon h1 h2) as [Eh Rh]; auto. destruct (digits2_canon m1 m2) as [Em Rm]; auto.
       set (hh := int_dec [h1; h2]) in *. set (mm := int_dec [m1; m2]) in *.
       destruct ((mm >? 59) || (hh * 60 + mm >? 14 * 60)) eqn:B; [discriminate|]. intros _.
-      match goal with X : ceq col ":" = true |- _ => apply ceq_eq in X; subst col end.
+      apply ceq_eq in Hcol; subst col.
       exists (c :: d2 hh ++ ":"%char :: d2 mm), r'. repeat split.
       * rewrite <- Eh, <- Em. reflexivity.
       * apply at_end_ws. assumption.
-      * assert (Hh : forallb is_digit (d2 hh) = true) by (rewrite <- Eh; cbn; repeat (apply andb_true_iff; split); auto).
-        assert (Hm : forallb is_digit (d2 mm) = true) by (rewrite <- Em; cbn; repeat (apply andb_true_iff; split); auto).
+      * assert (Hh : forallb is_digit (d2 hh) = true) by (rewrite <- Eh; cbn [forallb]; rewrite Hh1, Hh2; reflexivity).
+        assert (Hm : forallb is_digit (d2 mm) = true) by (rewrite <- Em; cbn [forallb]; rewrite Hm1, Hm2; reflexivity).
         change (c :: d2 hh ++ ":"%char :: d2 mm) with ([c] ++ d2 hh ++ [":"%char] ++ d2 mm).
         rewrite !no_ws_app, (digits_no_ws _ Hh), (digits_no_ws _ Hm).
         unfold is_sign in C. apply orb_true_iff in C as [C|C]; apply ceq_eq in C; subst c; reflexivity.
